@@ -79,6 +79,8 @@ def handler_names(h):
 
 
 def run(ctx):
+    from .unbound import rule_unbound
+    ctx.rule('C18.UNBOUND', lambda: rule_unbound(ctx, 'C18.UNBOUND', ('daemon',)), 20)
     ctx.rule('C18.CATCH', lambda: rule_catch(ctx), 4)
     ctx.rule('C18.FALLTHROUGH', lambda: rule_fallthrough(ctx), 3)
     ctx.rule('C18.BACKOFF', lambda: rule_backoff(ctx), 3)
@@ -88,6 +90,9 @@ def run(ctx):
     from . import c18x
     ctx.rule('C18.JSONPATH', lambda: c18x.rule_jsonpath(ctx), 2)
     ctx.rule('C18.PERMIT', lambda: c18x.rule_permit(ctx), 2)
+    ctx.rule('C18.ALIGN2', lambda: c18x.rule_vector_single(ctx), 2)
+    ctx.rule('C18.URL', lambda: c18x.rule_url_per_attempt(ctx), 3)
+    ctx.rule('C18.CONTENTTYPE', lambda: c18x.rule_content_type(ctx), 2)
     ctx.rule('C18.HANDLERSAFE', lambda: c18x.rule_handlersafe(ctx, send_parts, send_names, handler_names), 7)
 
 
